@@ -161,6 +161,24 @@ def do_replay(prop_id, path):
     return 0
 
 
+def _sweep_stale_scratch(max_age_s=3 * 3600):
+    """best effort: scratch index folders of runs that were killed (tv-*, older than three hours) are removed"""
+    import shutil
+    import tempfile
+    for root in ("/dev/shm", tempfile.gettempdir()):
+        try:
+            for name in os.listdir(root):
+                if name.startswith(("tv-", "tv-cut-", "tv-torn-", "tv-fuzz-")):
+                    p = os.path.join(root, name)
+                    try:
+                        if os.path.isdir(p) and time.time() - os.path.getmtime(p) > max_age_s:
+                            shutil.rmtree(p, ignore_errors=True)
+                    except OSError:
+                        pass
+        except OSError:
+            pass
+
+
 def main(argv=None):
     ap = argparse.ArgumentParser()
     ap.add_argument("prop")
@@ -182,6 +200,7 @@ def main(argv=None):
         return do_replay(prop_id, a.replay)
 
     t0 = time.time()
+    _sweep_stale_scratch()
     os.environ["TV_TIER"] = a.tier      # generators deepen their bounds in the thorough tier (tv/lru.py)
     from . import env  # noqa: F401
     from .core import Ctx
